@@ -8,6 +8,7 @@ CONSTANTS
   MaxSeeds = 0
   MaxSeedLen = 0
   WithTwins = FALSE
+  ResizeAlways = TRUE
   NBig = 5000
   KBig = 10
   NBigMin = 8
